@@ -383,7 +383,11 @@ pub fn c17_extra(case: &Case, tr: &Trace, _rep: &Report) -> Vec<Violation> {
             }
         }
         if code != 0 {
-            if let (Some(b), Some(a)) = (snap_before(c.invoke_idx), snap_after(ret_idx)) {
+            // only for a request that was answered before the next request was made: one that
+            // waited (a blocking Pull released by a later DeleteSubscription) brackets other
+            // requests' effects
+            let answered_at_once = snaps.iter().find(|(i, _)| *i > c.invoke_idx).map(|x| x.0 > ret_idx).unwrap_or(true);
+            if let (true, Some(b), Some(a)) = (answered_at_once, snap_before(c.invoke_idx), snap_after(ret_idx)) {
                 if a != b {
                     push("rejected_request_changed_state", c.invoke_idx, format!("{:?} answered code {} but the observable state changed:\n--- before\n{}--- after\n{}", short_req(&c.req), code, clip(b), clip(a)));
                 }
